@@ -26,7 +26,7 @@ open Gallia Gallia.Proto Gallia.Config
 -/
 
 def hexToStr (h : String) : Option Str :=
-  if h == "" then some [] else
+  if h == "" || h == "-" then some [] else
   match unhexStr h with
   | some bs => (String.fromUTF8? (ByteArray.mk bs.toArray)).map (·.toList)
   | none => none
@@ -255,7 +255,12 @@ def step (line : String) : String :=
   match words line with
   | ["eff", f, c, e, fl, d] =>
     match parseField f, parseRaw c, parseRaw e, parseRaw fl, parseDflt d with
-    | some fld, some cli, some env, some file, some dflt => showOutcome (effective fld cli env file dflt)
+    | some fld, some cli, some env, some file, some dflt =>
+      let extra := extraDefault env file
+      let all := match effective fld cli env file dflt, argValue cli (offered fld extra) with
+        | .rejected _ _, some (_, r) => " " ++ ",".intercalate ((blamedAll fld.kind r extra).map showSrc)
+        | _, _ => ""
+      showOutcome (effective fld cli env file dflt) ++ all
     | _, _, _, _, _ => "bad-op"
   | ["opt", f, sc, n, conf, c, e, tr, d] =>
     match parseField f, parseSect sc, hexToStr n, parseRaw c, parseRaw e, parseTreeTok tr, parseDflt d with
@@ -293,8 +298,10 @@ def step (line : String) : String :=
   | ["tmpl", reg] =>
     let entries := if reg == "-" then some [] else allSome ((reg.splitOn "|").map (fun e =>
       match e.splitOn "=" with
-      | [k, v] => match hexToStr k with
-        | some key => if v == "-" then some (splitOn '.' key, none) else (parseLeafTok v).map (fun l => (splitOn '.' key, some l))
+      | k :: v0 :: more =>
+        let v := "=".intercalate (v0 :: more)
+        match hexToStr k with
+        | some key => if v == "-" then some (splitOn '.' key, none) else (parseTreeTok v).map (fun l => (splitOn '.' key, some l))
         | none => none
       | _ => none))
     match entries with
